@@ -418,6 +418,73 @@ def job_user_defined(kind, tier):
     return out
 
 
+def _ref_inc_gamma(sv, x):
+    """upper incomplete gamma function Gamma(s, x), x > 0, by the textbook relations: Gamma(s) Q(s, x) for s > 0, E_1(x) for
+    s = 0, x^s E_{1-s}(x) for negative integers and the recurrence Gamma(s+1, x) = s Gamma(s, x) + x^s exp(-x) otherwise
+    (orders are dyadic rationals: float arithmetic on them is exact; Gamma(s) of a concrete order is the constant scipy returns)"""
+    from ..npx import SPS
+
+    sv = float(sv)
+    if sv > 0:
+        return SPS.gamma(sv) * Sym(theory.UF["gammaincc"](lift(sv), lift(x)))
+    if sv == 0:
+        return Sym(theory.UF["exp1"](lift(x)))
+    if sv == int(sv):
+        return sym.sym_pow(x, sv) * Sym(theory.UF["expn"](lift(1 - sv), lift(x)))
+    return (_ref_inc_gamma(sv + 1, x) - sym.sym_pow(x, sv) * _e(-x)) / sv
+
+
+def job_special(fname, sv, tier):
+    """the special functions behind the Integral and truncated-power-law models (real code of gstools.tools.special,
+    symbolic argument, concrete order) against the textbook relations"""
+    from .. import npx
+
+    npx.install()  # (this job runs the real special-function code: the exp_int stub of the model jobs is not installed)
+    import gstools.tools.special as sp
+
+    T = core.tier_timeout(tier)
+    out = []
+    x = real("x")
+    wv = {"x": x}
+    rb = ("special", lambda v: {"fn": fname, "s": sv, "values": v})
+    tag = f"C03/special/{fname}(s={sv})"
+
+    def run():
+        sym.assume(x > 0)
+        if fname == "exp_int":
+            # the finite branch (the library switches to asymptotic forms for x ~ 0 and x > max(30, -s/2))
+            sym.assume(x > 0.001)
+            sym.assume(x <= 30)
+        X = rnp.array([x], dtype=object)
+        return getattr(sp, fname)(sv, X)[0]
+
+    for pi, p in enumerate(explore(run, max_paths=40)):
+        base = f"{tag}/path{pi}"
+        if p.exc is not None:
+            out.append(rec(base, "error", detail=f"{p.exc!r} {p.tb}"))
+            continue
+        val = p.out
+        if fname == "inc_gamma":
+            ref = _ref_inc_gamma(sv, x)
+            what = "Gamma(s,x) by the recurrence Gamma(s+1,x) = s Gamma(s,x) + x^s exp(-x)"
+        elif fname == "inc_gamma_low":
+            from ..npx import SPS
+
+            ref = SPS.gamma(float(sv)) * Sym(theory.UF["gammainc"](lift(float(sv)), x.e))
+            what = "gamma(s,x) = Gamma(s) P(s,x)"
+        else:
+            fs = float(sv)
+            if fs == 1:
+                ref = Sym(theory.UF["exp1"](x.e))
+            elif fs == int(fs) and fs > 0:
+                ref = Sym(theory.UF["expn"](lift(fs), x.e))
+            else:
+                ref = _ref_inc_gamma(1 - fs, x) * sym.sym_pow(x, fs - 1)
+            what = "E_s(x) = x^(s-1) Gamma(1-s, x)"
+        out.append(prove(base + f"/== {what}", p.conds, lift(val) == lift(ref), T, witness_vars=wv, replay=rb, pairwise=False))
+    return out
+
+
 def jobs(tier, seed):
     js = []
     for name in MODELS:
@@ -431,6 +498,12 @@ def jobs(tier, seed):
             js.append(Job(f"scales-{name}", job_scales, name, tier))
     for kind in ("cor", "correlation", "covariance", "variogram"):
         js.append(Job(f"user-{kind}", job_user_defined, kind, tier))
+    for sv in (-2.5, -1.5, -0.5, -3.25, 0.5, 1.5, 0.0, -1.0, -2.0):
+        js.append(Job(f"special-inc_gamma-{sv}", job_special, "inc_gamma", sv, tier))
+    for sv in (0.5, 1.5, 2.5, 3.5, 1.75, 2.75, 4.25, 1.0, 2.0, 3.0):
+        js.append(Job(f"special-exp_int-{sv}", job_special, "exp_int", sv, tier))
+    for sv in (0.5, 1.5, 2.25):
+        js.append(Job(f"special-inc_gamma_low-{sv}", job_special, "inc_gamma_low", sv, tier))
     return js
 
 
@@ -577,4 +650,27 @@ def replay_user(inputs):
     return True, "user-defined derivation: symbolic only (uninterpreted F); replay not applicable"
 
 
-REPLAY = {"model": replay_model, "scales": replay_scales, "user": replay_user}
+def replay_special(inputs):
+    import numpy as np
+    from scipy import integrate
+
+    import gstools.tools.special as sp
+
+    fname, sv, v = inputs["fn"], float(inputs["s"]), inputs.get("values") or {}
+    bad = []
+    for x in [abs(_g(v, "x", 0.7)) or 0.7, 0.05, 0.7, 2.3, 9.0]:
+        if fname == "exp_int" and not (0.001 < x <= 30):
+            continue
+        got = float(np.asarray(getattr(sp, fname)(sv, np.array([x])))[0])
+        if fname == "inc_gamma":
+            want = integrate.quad(lambda t: t ** (sv - 1) * np.exp(-t), x, np.inf, limit=400)[0]
+        elif fname == "inc_gamma_low":
+            want = integrate.quad(lambda t: t ** (sv - 1) * np.exp(-t), 0, x, limit=400)[0]
+        else:
+            want = integrate.quad(lambda t: np.exp(-x * t) / t**sv, 1, np.inf, limit=400)[0]
+        if not np.isclose(got, want, rtol=1e-6, atol=1e-12):
+            bad.append(f"{fname}({sv}, {x}) = {got} but the defining integral is {want}")
+    return (not bad), f"{bad[:3]}"
+
+
+REPLAY = {"model": replay_model, "scales": replay_scales, "user": replay_user, "special": replay_special}
